@@ -72,6 +72,9 @@ pub fn drive_readn(ops: &str, trace: &str) {
         let prep = run.cfg["prep"].as_i64().unwrap_or(-1);
         out.emit(&json!({"run":run.run,"ev":"reset"}));
         let live0 = (ByteArena::num_live_chunks(), ByteArena::num_live_bytes());
+        // what the encoder entries encode before / after the read: "ab" / "yz", or "a FE" / "FD z" (a held-back FE across the read)
+        let fe = run.cfg["around"].as_str() == Some("fe");
+        let (ab, yz): (&[u8], &[u8]) = if fe { (&[97, 0xFE], &[0xFD, 122]) } else { (b"ab", b"yz") };
         let hard_b = kind_of(run.cfg["hard_b"].as_str().unwrap_or("BrokenPipe"));
         let mut rd = Scripted { hard_b, script: script.clone(), idx: 0, next_byte: 0, calls: vec![] };
         // result: (ok, err code, returned bytes, codec output, bytes fed to the decoder)
@@ -87,7 +90,7 @@ pub fn drive_readn(ops: &str, trace: &str) {
                 }
                 "enc_read_n" | "encode_read" => {
                     let mut enc = Encoder::new();
-                    enc.encode_copy(b"ab");
+                    enc.encode_copy(ab);
                     let (ok, err, got) = if entry == "enc_read_n" {
                         match enc.read_n(&mut rd, count, attempts) {
                             Ok(a) => (1, 0, a.slice().to_vec()),
@@ -99,7 +102,7 @@ pub fn drive_readn(ops: &str, trace: &str) {
                             Err(e) => (0, code(&e, hard_b), vec![]),
                         }
                     };
-                    enc.encode_copy(b"yz");
+                    enc.encode_copy(yz);
                     let o = enc.finish().flatten().unwrap_or_else(|v| v);
                     (ok, err, got, o, vec![])
                 }
@@ -147,7 +150,7 @@ pub fn drive_readn(ops: &str, trace: &str) {
         let got_ramp = got.iter().enumerate().all(|(i, b)| *b == ((i + 1) % 256) as u8);
         let got = if got_len > 70000 { vec![] } else { got };
         out.emit(&json!({"run":run.run,"ev":"readn","entry":entry,"script":script,"count":count,"attempts":attempts.get(),
-                         "prep":prep,"calls":rd.calls,"ok":ok,"err":err,"got":got,"got_len":got_len,"got_ramp":got_ramp as u8,
+                         "prep":prep,"calls":rd.calls,"ok":ok,"err":err,"got":got,"ab":ab,"yz":yz,"got_len":got_len,"got_ramp":got_ramp as u8,
                          "out":o,"fed":fed,"panic":pan,
                          "leak": (live0 != live1) as u8}));
     }
